@@ -15,7 +15,7 @@ import (
 )
 
 func init() {
-	register("C13", "Decides the structural agreement of the row codec: the kinds coerced by Valuer.Value's final switch equal the kinds coerced back by Scanner.Scan's final switch; every encoding tag Value handles (binary, string, json) is handled by Scan, and the tags buildDescriptor accepts are exactly primary plus the tags the codec knows, with implicitnull rejected on pointer fields; the protobuf filter codec agrees (every kind valueToField emits is decoded by FieldToValue, and each wrapper type written is read by the matching getter); FilterFromProto rejects nil for non-pointer columns and scans with the scanner of the same column; column/value/scanner indices are paired by the induction value in unbuildStruct, BuildStruct, parseQueryRow-style loops and parseBinlogRow (source index j for the binlog row, i for scanner and column), with the exact column-count test dominating every read of the row; Scanner.Scan stores a private []byte copy that is non-nil whenever the source is (no nil-based append, no aliasing of the driver buffer); MakeTester collects column and value in lock step and Tester.Test compares the two Valuer results per column with driverValuesEqual, which compares byte slices by content. Not decided: value-level round trip for every type and source representation (int64, []byte text, typed binlog ints).", c13)
+	register("C13", "Decides the structural agreement of the row codec: the kinds coerced by Valuer.Value's final switch equal the kinds coerced back by Scanner.Scan's final switch; every encoding tag Value handles (binary, string, json) is handled by Scan, and the tags buildDescriptor accepts are exactly primary plus the tags the codec knows, with implicitnull rejected on pointer fields; the protobuf filter codec agrees (every kind valueToField emits is decoded by FieldToValue, and each wrapper type written is read by the matching getter); FilterFromProto rejects nil for non-pointer columns and scans with the scanner of the same column; column/value/scanner indices are paired by the induction value in unbuildStruct, BuildStruct, parseQueryRow-style loops and parseBinlogRow (source index j for the binlog row, i for scanner and column), with the exact column-count test dominating every read of the row; Scanner.Scan stores a private []byte copy that is non-nil whenever the source is (no nil-based append, no aliasing of the driver buffer); MakeTester collects column and value in lock step and Tester.Test compares the two Valuer results per column with driverValuesEqual, which compares byte slices by content. buildDescriptor's decision table (which struct fields become columns, under which name, with which options, in field order) is evaluated under every assignment of its predicates. Not decided: value-level round trip for every type and source representation (int64, []byte text, typed binlog ints).", c13)
 }
 
 const fieldsPkg = "internal/fields"
